@@ -19,12 +19,12 @@ RULE = ('A motionless sensor: true attitude q* (class-A mixture incl. level / in
         'filter honours it and through a first sample that is the image of the initial attitude where it does not (Madgwick-MARG, '
         'FKF). Gains are the defaults or drawn inside each filter\'s stable range. Oracle per (filter, architecture): horizon H_f '
         'from the filter\'s own rate bound, err(H) <= tau_f, max err over the last 10% <= tau_f, err(H) <= max(err(0), tau_f), '
-        'A second sub-check (fast) gives the filters with horizons of a few thousand samples (AQUA, ROLEQ, Complementary, Madgwick with gain >= 0.3 at 20 Hz) four times as many starts, up to 175 deg in both tiers, half of them beyond 90 deg and some about the vertical axis (pure heading error). '
+        'A second sub-check (fast) gives the filters with horizons of a few thousand samples (AQUA, ROLEQ, Complementary, Madgwick with gain >= 0.3 at 20 Hz) four times as many starts, up to 175 deg in both tiers, half of them beyond 90 deg and some about the vertical axis (pure heading error); one run in four of Complementary and ROLEQ lasts eight horizons (the stays-there clause on a long record). '
         'error = geodesic angle to q* for MARG and angle between gravity images for IMU/acc-only variants (table HORIZON below, '
         'calibrated on the unchanged tree). Non-trivial: theta0 >= 30 deg; distinct = case hash.')
 ASSUMPTIONS = ['"within a bounded number of samples" is checked as a safety property at a per-filter horizon derived from its correction rate',
                'tau_f = 10 x the worst converged error observed over >= 5 seeds on the unchanged tree, clipped to [1e-4, 2e-2] rad (FKF: 0.15 rad, its gain decays like 1/t)']
-REQUIRED_LABELS = ['fast:theta0>=90', 'fast:filter=AQUA-MARG', 'converge:theta0>=90', 'converge:arch=MARG', 'converge:arch=IMU', 'converge:gains=custom', 'converge:gains=default']
+REQUIRED_LABELS = ['fast:stays_for_eight_horizons', 'fast:theta0>=90', 'fast:filter=AQUA-MARG', 'converge:theta0>=90', 'converge:arch=MARG', 'converge:arch=IMU', 'converge:gains=custom', 'converge:gains=default']
 
 G, B = 9.81, 50.0
 
@@ -107,7 +107,9 @@ def _case_fast(tier):
         else:
             P, dt = draw(_gains(key))
         theta0 = draw(st.one_of(gen.fl(0.0, 175.0), gen.fl(90.0, 175.0), gen.fl(90.0, 175.0), st.sampled_from([175.0, 90.0, 120.0])))
-        return {'spec': CONV_IDX[k], 'q': draw(gen.unit_quaternions(allow_denormal=False)),
+        # "... and then stays": one run in four of the batch-cheap filters goes on for eight horizons
+        stay = 8 if key.startswith(('Complementary', 'ROLEQ')) and draw(st.integers(0, 3)) == 0 else 1
+        return {'stay': stay, 'spec': CONV_IDX[k], 'q': draw(gen.unit_quaternions(allow_denormal=False)),
                 'axis': draw(st.one_of(gen.axes(), st.sampled_from([[0.0, 0.0, 1.0], [0.0, 0.0, -1.0]]))), 'theta0': theta0,
                 'dip': draw(gen.fl(-70.0, 70.0)), 'frame': draw(st.sampled_from(['NED', 'ENU'])),
                 'P': P, 'dt': dt, 'sigma_exp': draw(gen.fl(-6.0, -3.0)), 'seed': draw(st.integers(0, 2**31-1))}
@@ -224,6 +226,10 @@ def evaluate(case, ctx):
     # tau, not above the initial error); otherwise the full horizon is run and judged.  Same data: the short run is a prefix.
     H_full = int(min(horizon(key, case['P'], float(case['dt']), math.radians(theta0), 'quick'), 30000))
     attempts = [max(600, H_full//8), H_full] if H_full >= 4800 else [H_full]
+    stay = int(case.get('stay', 1))
+    if stay > 1:
+        ctx.label('stays_for_eight_horizons')
+        attempts = [int(min(H_full*stay, 30000))]
     for attempt, H in enumerate(attempts):
         try:
             spec, key, frame, Q, est_true, n = simulate(case, H=H)
